@@ -9,7 +9,7 @@
 EXTENDS Integers, Sequences, TLC
 CONSTANTS NB, MaxLen
 VARIABLES ops, cur, f
-Fields == <<"kind", "chain", "r", "w", "wb", "kh", "kw", "s", "pt", "pl", "pb", "pr", "blk", "lut", "lay", "tile", "tileo", "hi", "shift", "w1", "sc2", "rev">>
+Fields == <<"kind", "chain", "r", "w", "wb", "kh", "kw", "s", "sx", "pt", "pl", "pb", "pr", "blk", "lut", "lay", "tile", "tileo", "hi", "shift", "w1", "sc2", "rev">>
 Vals(fld) ==
   CASE fld = "kind" -> {"dma", "pool", "ew", "conv", "dw", "lutdma"}
     [] fld = "chain" -> 0..1          \* 1: read what the previous operation wrote (producer/consumer pair)
@@ -18,7 +18,8 @@ Vals(fld) ==
     [] fld = "wb" -> 0..NB            \* 0: weights / second operand straight from the constants region
     [] fld = "kh" -> 1..3
     [] fld = "kw" -> 1..3
-    [] fld = "s" -> 1..2
+    [] fld = "s" -> 1..3             \* vertical stride
+    [] fld = "sx" -> 0..3            \* horizontal stride; 0: same as the vertical one
     [] fld \in {"pt", "pl", "pb", "pr"} -> 0..1
     [] fld = "blk" -> 0..3            \* which of the offered block configurations
     [] fld = "lut" -> 0..2            \* 0: no table lookup, 1..2: LUT slot + 1
